@@ -1,6 +1,7 @@
 (* C17 - non-vacuity examples and the counter-example for the code before the fix. *)
 From Coq Require Import List NArith Bool Arith.
 From Storage Require Import Base.Bytes Db.RwLock Db.RwLockProofs Db.Content Db.Timeline Db.Snapshot Db.SnapshotProofs.
+From Storage Require Import Db.Reader Db.ReaderProofs Db.RestoreX Db.RestoreXProofs Db.RestoreJoin Db.RestoreJoinProofs.
 Import ListNotations.
 Open Scope N_scope.
 
@@ -90,3 +91,75 @@ Qed.
 Example recursive_rlock_ok_without_preference :
   forallb finished (threads (RwLock.run (init false legacy_threads) [0; 0; 1; 0; 0; 0; 0; 0; 1; 1; 1; 1]%nat)) = true.
 Proof. vm_compute. reflexivity. Qed.
+
+(* ---------------- readers ---------------- *)
+Close Scope N_scope.
+
+Definition ex_caps (i : nat) : nat := 3.     (* buffers of 4 bytes *)
+Definition ex_bytes : list nat := [10; 11; 12; 13; 14; 15; 16; 17; 18; 19].
+
+(* reads of 3, 0, 0, 1 bytes, then buffer-sized ones, EOF together with the last bytes *)
+Definition ex_script : script :=
+  {| pre := [3; 0; 0; 1]; rest := 0; eof_with_data := true; fail_at := None; fail_with_data := false |}.
+(* one byte at a time, EOF by a separate call *)
+Definition ex_onebyte : script :=
+  {| pre := []; rest := 1; eof_with_data := false; fail_at := None; fail_with_data := false |}.
+(* the whole data and EOF in a single call *)
+Definition ex_data_eof : script :=
+  {| pre := []; rest := 0; eof_with_data := true; fail_at := None; fail_with_data := false |}.
+(* fails after 7 bytes, the error arriving with bytes *)
+Definition ex_failing : script :=
+  {| pre := [2]; rest := 4; eof_with_data := false; fail_at := Some 7; fail_with_data := true |}.
+
+Example ex_copy_scripts :
+  copy ex_script ex_caps ex_bytes = (ex_bytes, COk)
+  /\ copy ex_onebyte ex_caps ex_bytes = (ex_bytes, COk)
+  /\ copy ex_data_eof (fun _ => 99) ex_bytes = (ex_bytes, COk)
+  /\ copy ex_failing ex_caps ex_bytes = ([10; 11; 12; 13; 14; 15; 16], CFail)
+  /\ copy ex_data_eof ex_caps (@nil nat) = ([], COk).
+Proof. vm_compute. repeat split. Qed.
+
+Example ex_chunking : chunking ex_bytes [[10; 11; 12]; []; [13]; [14; 15; 16; 17; 18; 19]; []].
+Proof. reflexivity. Qed.
+
+(* the loop that tests for EOF before writing loses what arrives together with EOF: with the
+   whole file in one read the temp file is EMPTY and the copy reports success *)
+Example copy_eof_first_refuted :
+  copy_eof_first ex_data_eof (fun _ => 99) ex_bytes = ([], COk)
+  /\ copy_eof_first ex_script ex_caps ex_bytes = ([10; 11; 12; 13; 14; 15; 16; 17], COk)
+  /\ copy_eof_first ex_onebyte ex_caps ex_bytes = (ex_bytes, COk).
+Proof. vm_compute. repeat split. Qed.
+
+(* a history through the extended model: a reading and a writing listener, snapshot, overwrite,
+   restore through the chunked reader - and the failing reader changes nothing *)
+Open Scope N_scope.
+Definition ex_xops : list xop :=
+  [ XBase (OTx [WPut [b_root] k_a [1]] true); XAddListener LSnapId; XAddListener (LWrite k_b); XAddListener LView;
+    XBase (OSnap SKPlain); XBase (OTx [WPut [b_root] k_a [2]] true) ].
+
+Example ex_xrestore :
+  let x := xrun ex_caps empty_xdb ex_xops in
+  let '(x1, o1) := xstep ex_caps x (XRestoreReader 0 10 ex_failing) in
+  let '(x2, o2) := xstep ex_caps x (XRestoreReader 0 10 ex_script) in
+  x1 = x /\ o1 = XoRefused
+  /\ lookup [b_root; k_a] (live (base x)) = Some (EVal [2])
+  /\ lookup [b_root; k_a] (live (base x2)) = Some (EVal [1])
+  /\ lookup [s_lsn; k_b] (live (base x2)) = Some (EVal [1])
+  /\ fired (base x2) = 3%nat
+  /\ o2 = XoRestored [LoSnapId (Some (fresh 0));
+                      LoWrite;
+                      LoView [([s_meta; s_snapshotId], EVal (enc_string (fresh 0))); ([b_root], EBucket); ([b_root; k_a], EVal [1])]].
+Proof. vm_compute. repeat split. Qed.
+
+(* ---------------- listeners and the lock ---------------- *)
+
+(* a restore that waits for its listeners while holding the write lock deadlocks with the first
+   listener that reads the database - under either lock preference *)
+Example join_under_lock_deadlock_refuted : forall p,
+  let s := jrun true [1%nat] (init p join_threads) join_sched in
+  forallb finished (threads s) = false /\ forall i, jstep true [1%nat] s i = s.
+Proof. exact join_under_lock_deadlocks_lemma. Qed.
+
+Example no_join_completes : forall p,
+  forallb finished (threads (jrun false [1%nat] (init p join_threads) [0; 0; 0; 0; 0; 1; 1; 1; 1; 1]%nat)) = true.
+Proof. exact no_join_completes_lemma. Qed.
